@@ -35,7 +35,22 @@ CLASS_SPECS = [
 ]
 
 
+def check_blind(case, acc):
+    """History (with hook faults) executed without any read in between; the invariant is evaluated once at the end."""
+    records, universe, rec = mut.run_blind(case)
+    problem = mut.consistency_problem(universe, rec.labels)
+    if problem is not None:
+        raise Violation("link-invariant", "after the read-free history %s: %s" % ([(s["op"], s.get("plan")) for s in case["steps"]], problem))
+    for op, exc, _ in records:
+        if isinstance(exc, AssertionError):
+            raise Violation("internal-assertion", "assertion fired in %s of a read-free history: %r" % (op, exc))
+    acc.nontrivial(len(records) >= 2)
+    acc.tag("blind_histories")
+
+
 def check_case(case, acc):
+    if case.get("kind") == "blind":
+        return check_blind(case, acc)
     changed = {"n": 0, "failed_after_hook": 0, "rollback": 0, "cross_tree": 0, "recursion": 0}
 
     def per_step(step, rec, universe):
@@ -81,10 +96,22 @@ def plan(tier, seed):
         examples = 50 if tier == "quick" else 250
         for i in range(nshards):
             tasks.append({"engine": "hyp", "examples": examples, "seed": seed * 1000 + i + 100 * assertions, "assertions": assertions})
+            tasks.append({"engine": "blind-hyp", "examples": examples, "seed": seed * 1000 + 400 + i + 100 * assertions, "assertions": assertions})
+        for spec in ("HNM", "HLM", "HNode") if (tier == "thorough" or assertions == 1) else ():
+            for n, length in ([(2, 3), (3, 2)] if tier == "quick" else [(2, 4), (3, 3)]):
+                shards = 4 if (n, length) == (2, 3) else nshards
+                for i in range(shards):
+                    tasks.append({"engine": "blind-enum", "spec": spec, "n": n, "length": length, "index": i, "count": shards, "assertions": assertions})
     return tasks
 
 
 def run_task(task, acc):
+    if task["engine"] == "blind-enum":
+        cases = mut.blind_sequences(task["spec"], task["n"], task["length"], task["index"], task["count"])
+        return acc.run_enum(check_case, (dict(c, assertions=task["assertions"]) for c in cases))
+    if task["engine"] == "blind-hyp":
+        strat = mut.history_strategy(max_nodes=6, max_steps=20, faults="all", invalid=True, class_specs=[c for c in CLASS_SPECS if mut.family_of(c) != "mixed"])
+        return acc.run_hypothesis(check_case, strat.map(lambda c: {"kind": "blind", "cls": c["cls"], "n": c["n"], "steps": c["steps"], "assertions": task["assertions"]}), task["examples"], task["seed"])
     if task["engine"] == "enum":
         spec = ENUM_SPECS[task["spec"]]
         maxlen = None if task["n"] <= 3 else 3
